@@ -6,6 +6,10 @@ use crate::sexp;
 use crate::suite::{Ctx, Out};
 use crate::suites::c14::show_rule;
 use crate::suites::c15::ticket_bytes;
+use crate::memsys::ClockMode;
+use crate::scenario::disk_files;
+use crate::verif_sched::Policy;
+use crate::world::{self, Driver, Op, RULES_PATH};
 
 fn catch<R>(f : impl FnOnce() -> R) -> Result<R, String>
 {
@@ -119,5 +123,96 @@ pub fn identity(ctx : &Ctx, out : &mut Out)
             out.count("outside-parser-range");
             out.case(sexp::paren(&["rule_ticket".to_string(), show_rule(r)]), sexp::hex(&ticket_bytes(&t)), true);
         }
+    }
+}
+
+
+/// C13 at the level of builds: "history is shared exactly between identical rules ... merely re-ordering the target
+/// or source lines does not [give a new identity]". One rule with several targets, written in two equivalent
+/// notations of the rules file (flat lines in some order / tab-indented directory bundle — where the order in which
+/// the parser yields the paths differs from the bytewise order: `d-`, `d.log` sort between `d` and `d/x`): build with
+/// one notation, rewrite the file in the other, build again — nothing may run and nothing may change; clean, switch
+/// back, build — every target must come back with ITS content. All of it is a correspondence case as well.
+pub fn shared_history(ctx : &Ctx, out : &mut Out)
+{
+    let mut rng = Rng::new(ctx.seed).fork(1313);
+    let n = if ctx.thorough { 600 } else { 60 };
+    for i in 0..n
+    {
+        let mut r = rng.fork(i as u64);
+        // targets: at least one inside directory d, at least one sorting between "d" and "d/"
+        let inside = ["d/x", "d/y.1", "d/a"];
+        let between = ["d-", "d.log", "d+"];
+        let other = ["c", "e", "d0", "da"];
+        let mut targets : Vec<String> = vec![r.pick(&inside).to_string(), r.pick(&between).to_string()];
+        for _ in 0..r.range(0, 2) { let t = r.pick(&[inside[0], inside[1], inside[2], between[0], between[1], between[2], other[0], other[1], other[2], other[3]]).to_string(); if !targets.contains(&t) { targets.push(t); } }
+        let mut sources = vec!["s".to_string()];
+        if r.chance(1, 2) { sources.push("s2".to_string()); }
+        let command : Vec<String> = { let mut c = vec![]; for (k, t) in targets.iter().enumerate() { if k > 0 { c.push(";".to_string()); } c.push(format!("gen {} @s ={}", t, t.replace('/', "_"))); } c };
+        let flat = |order : &Vec<String>, srcs : &Vec<String>| -> String
+        {
+            format!("{}\n:\n{}\n:\n{}\n:\n", order.join("\n"), srcs.join("\n"), command.join("\n"))
+        };
+        let bundle = |srcs : &Vec<String>| -> String
+        {
+            // top-level names in any order, the directory d with its children indented below it
+            let mut top : Vec<String> = targets.iter().filter(|t| !t.starts_with("d/")).cloned().collect();
+            let mut kids : Vec<String> = targets.iter().filter_map(|t| t.strip_prefix("d/").map(|k| k.to_string())).collect();
+            top.sort(); kids.sort();
+            let mut lines : Vec<String> = vec![];
+            lines.push("d".to_string());
+            for k in kids.iter() { lines.push(format!("\t{}", k)); }
+            lines.extend(top);
+            format!("{}\n:\n{}\n:\n{}\n:\n", lines.join("\n"), srcs.join("\n"), command.join("\n"))
+        };
+        let mut order1 = targets.clone(); r.shuffle(&mut order1);
+        let mut order2 = targets.clone(); r.shuffle(&mut order2);
+        let mut srcs2 = sources.clone(); srcs2.reverse();
+        let texts : Vec<String> = vec![flat(&order1, &sources), bundle(&sources), flat(&order2, &srcs2)];
+        let first = r.below(3);
+        let second = (first + 1 + r.below(2)) % 3;
+
+        let driver = Driver::new(ClockMode::Fine, 1_000_000);
+        driver.sys.with(|st| { st.disk.dirs.insert("d".to_string(), Default::default()); });
+        let mut ops : Vec<Op> = vec![];
+        let mut obs : Vec<String> = vec![];
+        let user = |op : Op, ops : &mut Vec<Op>, obs : &mut Vec<String>| { driver.user(&op); driver.tick(); obs.push(world::show_obs(None, &driver.sys.disk())); ops.push(op); };
+        let invoke = |op : Op, ops : &mut Vec<Op>, obs : &mut Vec<String>| { let inv = driver.invoke(&op, Policy::Serial); driver.tick(); obs.push(world::show_obs(Some(&inv), &driver.sys.disk())); ops.push(op); inv };
+        let replay = |ops : &Vec<Op>| { let mut j = Json::obj(); j.set("suite", Json::s("c13_shared")); j.set("ops", Json::Arr(ops.iter().map(|o| Json::s(&o.describe())).collect())); j.set("case", Json::s(&world::show_history_case(false, 1_000_000, ops))); j.set("note", Json::s("directory d exists beforehand")); j };
+        user(Op::Write(RULES_PATH.to_string(), texts[first].clone().into_bytes()), &mut ops, &mut obs);
+        user(Op::Write("s".to_string(), b"one".to_vec()), &mut ops, &mut obs);
+        if sources.len() > 1 { user(Op::Write("s2".to_string(), b"two".to_vec()), &mut ops, &mut obs); }
+        let b1 = invoke(Op::Build(None), &mut ops, &mut obs);
+        out.count(&format!("notations:{}->{}", first, second));
+        if !b1.verdict.is_ok() { out.count("first-build-not-ok"); out.case(world::show_history_case(false, 1_000_000, &ops), sexp::list(obs), false); continue; }
+        let built = disk_files(&driver.sys.disk());
+        // the same rule, written differently
+        user(Op::Write(RULES_PATH.to_string(), texts[second].clone().into_bytes()), &mut ops, &mut obs);
+        let b2 = invoke(Op::Build(None), &mut ops, &mut obs);
+        if !b2.verdict.is_ok() || !b2.commands.is_empty()
+        {
+            out.violation("C13:identical-rule-does-not-share-history", format!("the rule was only written differently (same targets, sources, command), yet the next build gives {} and runs {:?}", b2.verdict.show(), b2.commands.iter().map(|c| c.1.clone()).collect::<Vec<_>>()), replay(&ops));
+        }
+        // take the targets away and let ruler bring them back from what it remembers
+        if r.chance(1, 2) { invoke(Op::Clean(None), &mut ops, &mut obs); } else { for t in targets.iter() { user(Op::Remove(t.clone()), &mut ops, &mut obs); } }
+        if r.chance(1, 2) { user(Op::Write(RULES_PATH.to_string(), texts[first].clone().into_bytes()), &mut ops, &mut obs); }
+        let b3 = invoke(Op::Build(None), &mut ops, &mut obs);
+        let after = disk_files(&driver.sys.disk());
+        if b3.verdict.is_ok()
+        {
+            for t in targets.iter()
+            {
+                if after.get(t) != built.get(t)
+                {
+                    out.violation("C13:history-applied-to-the-wrong-target", format!("{:?} holds {:?} after the build, its own output is {:?}", t, after.get(t).map(|c| String::from_utf8_lossy(c).to_string()), built.get(t).map(|c| String::from_utf8_lossy(c).to_string())), replay(&ops));
+                    break;
+                }
+            }
+        }
+        else
+        {
+            out.violation("C13:identical-rule-does-not-share-history", format!("after the targets were taken away the build of the identical rule gives {}", b3.verdict.show()), replay(&ops));
+        }
+        out.case(world::show_history_case(false, 1_000_000, &ops), sexp::list(obs), true);
     }
 }
